@@ -88,12 +88,15 @@ package align
 //@   trusted iterates over the rows with a closure passed to IterateChar (closure calls are not inlined by the generator); it only reads the residues
 //@   requires sb != nil
 //@   ensures alphabet == AMINOACIDS || alphabet == NUCLEOTIDS || alphabet == BOTH || alphabet == UNKNOWN
+// (C05b, same trust) "nucleotide" is answered only when every residue is a nucleotide symbol (isnt stays true only through the couldbent cases)
+//@   ensures alphabet == NUCLEOTIDS || alphabet == BOTH ==> forall r, k :: 0 <= r && r < nrows(sb) && 0 <= k && k < rowlen(sb, r) ==> ntsym(up8(cell(sb, r, k)))
 //@   modifies nothing
 
 //@ func (*seqbag).AutoAlphabet
 //@   props C03 C01 C05
 //@   requires sb != nil
 //@   ensures sb.alphabet == AMINOACIDS || sb.alphabet == NUCLEOTIDS || sb.alphabet == UNKNOWN
+//@   ensures sb.alphabet == NUCLEOTIDS ==> forall r, k :: 0 <= r && r < nrows(sb) && 0 <= k && k < rowlen(sb, r) ==> ntsym(up8(cell(sb, r, k)))
 //@   modifies sb.alphabet
 
 //@ func (*seqbag).SetAlphabet
